@@ -5,7 +5,9 @@ package c17
 import (
 	"encoding/hex"
 	"fmt"
+	"os"
 	"runtime"
+	"runtime/pprof"
 	"strconv"
 	"strings"
 
@@ -431,6 +433,12 @@ func risky(b []byte) bool {
 // ---------------------------------------------------------------------------
 
 func (Driver) Run(c *core.Ctx) {
+	if pf := os.Getenv("C17_PROF"); pf != "" {
+		if f, err := os.Create(pf); err == nil {
+			pprof.StartCPUProfile(f)
+			defer pprof.StopCPUProfile()
+		}
+	}
 	nb, nr := split(c)
 	total := int64(c.N(quickTotal, thoroughTotal))
 	e := &executor{c: c, mm: newMemMon()}
